@@ -15,6 +15,7 @@ pub fn gen15(tier: &str, rng: &mut Rng) -> Vec<Spec> {
             v.push(Spec::new(kind).with("ty", ty).with("xs", join_rats(&xs))); } }
         for _ in 0..(if t { 1500 } else { 200 }) { let l = rng.range(1, if t { 120 } else { 40 }) as usize; v.push(Spec::new(kind).with("xs", join_rats(&rand_hist(rng, l, 7)))); }
     }
+    let mut v = with_entry_points(v, rng, &["diff", "int"], 10);
     v.extend(crate::fx::gen(&[0, 1, 2, 3], if t { 400 } else { 60 }, rng));
     v
 }
@@ -32,8 +33,8 @@ pub fn exec15(s: &Spec, stats: &mut Stats) -> Outcome {
         ("pipe_di", "f32") => (2, run_all(&mut ViaF32(Pipe::new(Differentiate::<f32>::default(), Integrate::<f32>::default())), &xs)),
         (_, "f32") => (3, run_all(&mut ViaF32(Pipe::new(Integrate::<f32>::default(), Differentiate::<f32>::default())), &xs)),
         (k, _) => match k {
-        "diff" => (0, run_all(&mut Differentiate::<Rat>::default(), &xs)),
-        "int" => (1, run_all(&mut Integrate::<Rat>::default(), &xs)),
+        "diff" => (0, run_all(&mut prep(Differentiate::<Rat>::default(), s, stats), &xs)),
+        "int" => (1, run_all(&mut prep(Integrate::<Rat>::default(), s, stats), &xs)),
         "pipe_di" => (2, run_all(&mut Pipe::new(Differentiate::<Rat>::default(), Integrate::<Rat>::default()), &xs)),
         _ => (3, run_all(&mut Pipe::new(Integrate::<Rat>::default(), Differentiate::<Rat>::default()), &xs)),
         },
